@@ -8,18 +8,11 @@
 use std::sync::Arc;
 use std::sync::atomic::{AtomicU8, Ordering};
 
-struct ListProbe { list: PublisherVecThreads<u8, u8>, seen: Arc<AtomicU8>, got: Arc<AtomicU8>, cut: bool }
+struct ListProbe { list: PublisherVecThreads<u8, u8>, seen: Arc<AtomicU8>, got: Arc<AtomicU8> }
 impl Observer<u8, u8> for ListProbe {
   fn next(&mut self, v: u8) {
     self.seen.store(if self.list.verif_is_locked() { 1 } else { 2 }, Ordering::SeqCst);
     self.got.store(v, Ordering::SeqCst);
-    if self.cut {
-      // the obligation is checked HERE, inside the callback, and the path is cut: whatever the
-      // emitter does after the callback (which is what exceeds CBMC's budget once the list is
-      // moved out and put back) is not explored by this harness
-      assert!(self.list.verif_is_locked());
-      kani::assume(false);
-    }
   }
   fn error(self, _: u8) {}
   fn complete(self) {}
@@ -35,7 +28,7 @@ fn subject_threads_broadcasts_under_the_list_lock() {
   let seen = Arc::new(AtomicU8::new(0));
   let got = Arc::new(AtomicU8::new(0));
   let mut subject = SubjectThreads::<u8, u8>::default();
-  let _u = subject.clone().actual_subscribe(ListProbe { list: subject.observers.clone(), seen: seen.clone(), got: got.clone(), cut: false });
+  let _u = subject.clone().actual_subscribe(ListProbe { list: subject.observers.clone(), seen: seen.clone(), got: got.clone() });
   let v: u8 = kani::any();
   subject.next(v);
   assert!(got.load(Ordering::SeqCst) == v);
@@ -45,16 +38,3 @@ fn subject_threads_broadcasts_under_the_list_lock() {
   assert!(!subject.is_empty());
 }
 
-// [C06] the same obligation asserted inside the callback, with the path cut right after it (decides
-// quickly also when the code after the callback is expensive for CBMC; that the callback is reached
-// at all is what the harness above establishes)
-//@ bounded: exactly one subscriber; nothing after the callback is explored
-#[kani::proof]
-#[kani::unwind(4)]
-fn subject_threads_callback_sees_the_list_locked() {
-  let seen = Arc::new(AtomicU8::new(0));
-  let got = Arc::new(AtomicU8::new(0));
-  let mut subject = SubjectThreads::<u8, u8>::default();
-  let _u = subject.clone().actual_subscribe(ListProbe { list: subject.observers.clone(), seen: seen.clone(), got: got.clone(), cut: true });
-  subject.next(kani::any());
-}
